@@ -37,6 +37,9 @@ type Cfg struct {
 	GEPBias bool
 	// DebugInfo adds a specialised debug-info metadata graph (DICompileUnit, DIFile, types, scopes, locations ...).
 	DebugInfo bool
+	// NoScale switches the occasional large module off (checks whose cost grows quadratically).
+	NoScale bool
+	scaled  bool
 }
 
 // DefaultCfg returns the 'full' profile.
